@@ -2,6 +2,7 @@ import Driver.Sexp
 import IweModel.Model.Path
 import Driver.GraphOps
 import Driver.RouterOps
+import Driver.FsOps
 
 open Iwe
 
@@ -39,6 +40,8 @@ def dispatch : Sexp → Except String Sexp
     GraphOps.renameOp ext imp steps fromKey (← Codec.optStr? url) newName
   | .list (.atom "router.run" :: .atom w :: .atom c :: .atom notes :: acts) =>
     RouterOps.runOp (w == "true") (c == "true") (notes.toNat?.getD 1) acts
+  | .list [.atom "fs.writeFile", .atom a, .str base, .str key, .atom n] =>
+    .ok (FsOps.writeFileOp (a == "true") base key (n.toNat?.getD 1))
   | other => .error s!"unknown request {other.toStr.take 80}"
 
 partial def loop (h : IO.FS.Stream) (out : IO.FS.Stream) : IO Unit := do
